@@ -20,6 +20,7 @@ for d in /verif/seeded/*/; do
   python3 /verif/checklib/gen_codec.py $T/src/ebpf.rs $T/out/Codec.lean >/dev/null 2>&1 || res="$res codec:FAIL"
   python3 /verif/checklib/gen_builder.py $T/src $T/out/BuilderTables.lean >/dev/null 2>&1 || res="$res builder:FAIL"
   python3 /verif/checklib/gen_vmfixed.py $T/src/lib.rs $T/out/VmFixed.lean >/dev/null 2>&1 || res="$res vmfixed:FAIL"
+  python3 /verif/checklib/gen_vmapi.py $T/src/lib.rs $T/out/VmApi.lean >/dev/null 2>&1 || res="$res vmapi:FAIL"
   for f in $T/out/*.lean; do b=$(basename $f); [ -f $G/$b ] && ! cmp -s $f $G/$b && res="$res $b"; done
   echo "$n |$res"
   rm -rf $T
